@@ -39,8 +39,8 @@ func init() {
 
 // ---------------------------------------------------------------- reduced schemas
 
-// unkReduce returns the descriptor of md in a copy of its file from which random fields (and, per
-// message, possibly all extension ranges) were deleted.  nil: the reduced file was rejected.
+// unkReduce returns the descriptor of md in a copy of its file from which random fields and all
+// extension ranges were deleted.  nil: the reduced file was rejected.
 func unkReduce(c *Ctx, md protoreflect.MessageDescriptor) protoreflect.MessageDescriptor {
 	fdp := protodesc.ToFileDescriptorProto(md.ParentFile())
 	noExt := map[string]bool{} // ".pkg.Msg" whose extension ranges were dropped
@@ -73,7 +73,10 @@ func unkReduce(c *Ctx, md protoreflect.MessageDescriptor) protoreflect.MessageDe
 			nested = append(nested, n)
 		}
 		dp.NestedType = nested
-		if len(dp.ExtensionRange) > 0 && c.Intn(3) == 0 {
+		if len(dp.ExtensionRange) > 0 {
+			// every extension range is deleted: a registered extension found through the global
+			// registry would bring the ORIGINAL descriptors of its message type into the reduced
+			// schema (same full names as the reduced ones)
 			dp.ExtensionRange = nil
 			noExt[fq] = true
 		}
@@ -511,6 +514,29 @@ func unkCorpus(c *Ctx, corpus []*w2aTarget) {
 		{"opaque.lazy_tree.Node", []byte{0x9a, 0x06, 0x02, 0x08, 0x05, 0x98, 0x06, 0x07}},
 		// unknown inside a sub-message and inside a group
 		{"goproto.proto.test.TestAllTypes", []byte{0x92, 0x01, 0x05, 0x08, 0x01, 0xf8, 0x07, 0x09, 0x83, 0x01, 0x88, 0x01, 0x02, 0xf8, 0x07, 0x03, 0x84, 0x01}},
+	}
+	// unknown numbers at the tag-size boundaries (1, 2, 3, 4, 5 tag bytes), every wire type
+	for _, typ := range []string{"goproto.proto.test.TestAllTypes", "goproto.proto.test.TestAllTypes.NestedMessage",
+		"opaque.goproto.proto.testeditions.TestAllTypes", "goproto.proto.test3.TestAllTypes"} {
+		for _, num := range []protowire.Number{15, 16, 2047, 2048, 2049, 262143, 262144, 33554431, 33554432, 536870911} {
+			for _, wt := range []protowire.Type{protowire.VarintType, protowire.Fixed64Type, protowire.BytesType, protowire.Fixed32Type, protowire.StartGroupType} {
+				b := []byte{0x08, 0x03} // a known field first (field 1 is a varint field in all four types)
+				b = protowire.AppendTag(b, num, wt)
+				switch wt {
+				case protowire.VarintType:
+					b = append(b, 0x01)
+				case protowire.Fixed64Type:
+					b = append(b, 1, 2, 3, 4, 5, 6, 7, 8)
+				case protowire.BytesType:
+					b = append(b, 0x02, 0x61, 0x62)
+				case protowire.Fixed32Type:
+					b = append(b, 1, 2, 3, 4)
+				default:
+					b = protowire.AppendTag(append(b, 0x08, 0x01), num, protowire.EndGroupType)
+				}
+				items = append(items, item{typ, b})
+			}
+		}
 	}
 	for _, it := range items {
 		t := byName[it.typ]
